@@ -48,9 +48,9 @@ MUT = {
     "M14-client-version-stores-raw-time": ("C16", S + "server.py",
         "        if self._blur_usage:\n            server_rx = self._blur_usage * (server_rx // self._blur_usage)\n        implementation = client_version[0]",
         "        implementation = client_version[0]"),
-    "M15-ack-after-dispatch-for-list": ("C17", S + "server_websocket.py",
-        "            if mtype == \"list\":\n                return self.handle_list()",
-        "            if mtype == \"list\":\n                self.handle_list()\n                return self.send(\"ack\", id=msg.get(\"id\"))"),
+    "M15-no-ack-for-list": ("C17", S + "server_websocket.py",
+        "            self.send(\"ack\", id=msg.get(\"id\"))\n\n            mtype = msg[\"type\"]",
+        "            mtype = msg[\"type\"]\n            if mtype != \"list\":\n                self.send(\"ack\", id=msg.get(\"id\"))"),
     "M16-create-renames-before-schema": ("C19", S + "database.py",
         "    db = _open_db_connection(temp_dbfile)\n    _initialize_db_schema(db, name, target_version)\n    db.close()\n    os.rename(temp_dbfile, dbfile)\n    return _open_db_connection(dbfile)",
         "    os.rename(temp_dbfile, dbfile)\n    db = _open_db_connection(dbfile)\n    _initialize_db_schema(db, name, target_version)\n    return db"),
